@@ -14,6 +14,10 @@ Part 4 (as part 3, in local time zones with daylight saving): the worker sets TZ
         before, at the start of, inside, at the end of and after the changed interval; at every probed instant the present
         value must be the one the reference interpreter gives for the civil date and time the local clock shows at that
         instant (bv.refs.schedref.TzRule, an own implementation of the POSIX rule, cross-checked against time.localtime).
+Part 5 (history): one long-lived schedule object is evaluated, reconfigured (the dateList of a referenced Calendar gains /
+        loses the date; exceptionSchedule, weeklySchedule, effectivePeriod, scheduleDefault written), evaluated again, the
+        change undone, evaluated again - in pure eval() and on the object's own timer; the result must be the one the
+        reference prescribes for the CURRENT configuration, whatever was evaluated before.
 """
 import calendar as _cal
 import datetime
@@ -63,7 +67,17 @@ RULE = ("part1: every (calendar date of the listed years) x (pattern): Date patt
         "list of <=2 (T: <=3) of them x value/Null per entry, plus all five; run to the end of the second day after the change; "
         "probed at every instant at which the local clock shows 00:00, 00:01, 12:00, 23:59:59, one of the five times or an "
         "entry time, one minute before / after each (no instant for a skipped reading, two for a repeated one), at the "
-        "instant of the change and one second before / after it.")
+        "instant of the change and one second before / after it.  part5: every (date, configuration that refers to one or two "
+        "Calendar objects, listing the date or not, change, when); change = the Calendar's dateList gains the date (as date / "
+        "range / WeekNDay entry) or loses it, written as a list / assigned / mutated in place / the Calendar deleted and "
+        "re-created; an exception removed / added / its values written (whole array and single element) / referred to another "
+        "Calendar / priorities swapped; the weekday's list written (whole array and element); effectivePeriod written so that it "
+        "excludes the date; scheduleDefault written; each followed by its undoing.  pure: when = 6 sequences of evaluations "
+        "before the change (none; the date; the date and the next day in both orders; the date twice; three days) x the "
+        "clock's date {the date, the next day}; after each change the date, the next day and the date again are evaluated "
+        "at the 10 instants of part 2 with the oracle of part 2.  timer: the object runs from the day before, the change is "
+        "made on the date at {07:00, 09:00:01, 17:30, 23:59:30}, undone the next day at 12:00:30, run to the end of the "
+        "following day, probed as in part 3 and at both writes.")
 ASSUMPTIONS = [
     "schedule objects are built the way tests/test_local builds them (time values hold Integer/Null atomics, times and "
     "dates are 4-tuples, WeekNDay is the 3-octet string a decoded CalendarEntry holds); values that arrive as AnyAtomic "
@@ -87,6 +101,14 @@ ASSUMPTIONS = [
     "part 4: local time is the platform's (TZ as a POSIX rule + tzset); a run never starts inside a skipped or repeated "
     "interval; glibc's mktime resolves a repeated local time by the offset of its previous result, every run starts with the "
     "history of a process that has been running since the start instant",
+    "part 5, what is demanded after a reconfiguration: eval() gives the value of the current configuration immediately, "
+    "for every kind of write.  The timer-driven presentValue must be current immediately after a write the interpreter "
+    "monitors (weeklySchedule, exceptionSchedule, whole or element); after a write it is not told about (a Calendar's "
+    "dateList, effectivePeriod, scheduleDefault) it is judged from the interpreter's next wake-up (the time its task was "
+    "armed for when the write happened) on - the statement's 'cannot change before the reported next transition' is about "
+    "a fixed configuration; probes before that wake-up are counted (outcomes p5:timer:write-not-monitored:...), not judged",
+    "part 5: objects are reconfigured through the local API (attribute assignment / WriteProperty(direct=True) / the list "
+    "object held by the Calendar), not through BACnet services",
     "one value type (Integer); schedules with neither weeklySchedule nor exceptionSchedule are a configuration error by "
     "the standard and are not enumerated",
 ]
@@ -94,12 +116,14 @@ BOUNDS = {
     "quick": "part1 years 1900,1999,2000,2023,2024,2100,2154 (2 557 dates); part2 <=1 exception over all 27 lists, 2 exceptions over "
              "the 19 lists of <=2 entries with 10 of the 20 weekly alternatives; part3 4 anchor dates x 8 effective periods x 39 bodies x 2 start instants, 6 virtual days; "
              "part4 zones CET-1CEST,M3.5.0,M10.5.0/3 and EST5EDT,M3.2.0,M11.1.0, both clock changes of 2024, 5 effective periods x "
-             "212 bodies (53 lists) x 2 start instants, 4-5 virtual days",
+             "212 bodies (53 lists) x 2 start instants, 4-5 virtual days; "
+             "part5 3 dates x 10 configurations x 13-21 changes x 12 pure histories, 2 dates x 10 configurations x changes x 4 "
+             "change times timer-driven (4 virtual days)",
     "thorough": "part1 every date 1900..2154 (93 137 dates); part2 <=2 exceptions over all 27 lists, 3 exceptions (at most one of them not in force) over the "
                 "19 lists of <=2 entries with 5 of the 20 weekly alternatives; part3 10 anchor dates x 8 effective periods x larger body set; "
                 "part4 the two zones of quick + <-03>3<-02>,M10.3.0/0,M2.3.0/0 (changes at midnight, southern hemisphere) + "
                 "<+1030>-10:30<+11>-11,M10.1.0,M4.1.0 (half-hour shift), both clock changes of 2024 and 2038, 5 effective periods x "
-                "532 bodies (133 lists) x 2 start instants",
+                "532 bodies (133 lists) x 2 start instants; part5 as quick",
 }
 
 ANY = 255
@@ -1352,6 +1376,422 @@ def which_kind(spec, year, which):
     return _KIND[k]
 
 
+# ----------------------------------------------------------------------------- part 5: history (reconfiguration between evaluations)
+#
+# One long-lived schedule object (and the Calendar objects it refers to) is evaluated, reconfigured, and evaluated again.
+# Oracle: whatever was evaluated before, the result is the one the reference prescribes for the CURRENT configuration
+# (on failure a freshly created object of the current configuration is asked too, to name the root cause).
+# A description here may carry "cal": n in an exception whose period is ("cal", entries): the number of the Calendar
+# object it refers to (several exceptions may share one); the reference ignores the key.
+
+P5_HOWS = ("write-list", "assign", "inplace", "recreate")
+P5_NOTIFIED = ("exc-set", "exc-elem", "weekly-set", "weekly-elem")     # writes the interpreter monitors (schedule_changed)
+
+
+class Stage(object):
+    """Real objects for a description + the operations that reconfigure them (keeps the description in step)."""
+
+    def __init__(self, desc):
+        self.app = get_app(fresh=True)
+        self.desc = dict(desc)
+        self.cals = {}
+        kwargs = dict(objectIdentifier=("schedule", 1), objectName="sched", presentValue=Integer(-1),
+                      effectivePeriod=DateRange(startDate=tuple(desc["period"][0]), endDate=tuple(desc["period"][1])),
+                      scheduleDefault=Integer(desc["default"]))
+        if desc.get("weekly") is not None:
+            kwargs["weeklySchedule"] = ArrayOfDaily([DailySchedule(daySchedule=mk_tvs(day)) for day in desc["weekly"]])
+        if desc.get("exceptions") is not None:
+            kwargs["exceptionSchedule"] = ArrayOfSpecial([self.special(e) for e in desc["exceptions"]])
+        self.so = LocalScheduleObject(**kwargs)
+        if self.so.reliability != "noFaultDetected":
+            raise HarnessError("enumerated schedule is rejected by _check_reliability: %r" % (desc,))
+        self.app.add_object(self.so)
+
+    def calendar(self, n, entries):
+        cal = CalendarObject(objectIdentifier=("calendar", n), objectName="cal%d" % n,
+                             dateList=ListOfCalendarEntry([mk_entry(x) for x in entries]))
+        self.cals[n] = cal
+        self.app.add_object(cal)
+
+    def special(self, e):
+        kind, what = e["period"]
+        if kind == "cal":
+            n = e["cal"]
+            if n not in self.cals:
+                self.calendar(n, what)
+            period = SpecialEventPeriod(calendarReference=("calendar", n))
+        else:
+            period = SpecialEventPeriod(calendarEntry=mk_entry(e["period"]))
+        return SpecialEvent(period=period, listOfTimeValues=mk_tvs(e["tv"]), eventPriority=e["prio"])
+
+    def apply(self, op):
+        kind = op[0]
+        desc = self.desc
+        if kind == "cal-set":
+            _, n, entries, how = op
+            cal = self.cals[n]
+            objs = [mk_entry(x) for x in entries]
+            if how == "write-list":
+                cal.WriteProperty("dateList", objs, direct=True)
+            elif how == "assign":
+                cal.dateList = ListOfCalendarEntry(objs)
+            elif how == "inplace":
+                held = cal.dateList
+                held = held.value if hasattr(held, "value") else held
+                held[:] = objs
+            elif how == "recreate":
+                self.app.delete_object(cal)
+                self.calendar(n, entries)
+            else:
+                raise ValueError(how)
+            desc["exceptions"] = tuple(dict(e, period=("cal", tuple(entries))) if e.get("cal") == n else e
+                                       for e in desc["exceptions"])
+        elif kind == "exc-set":
+            self.so.exceptionSchedule = ArrayOfSpecial([self.special(e) for e in op[1]])
+            desc["exceptions"] = tuple(op[1])
+        elif kind == "exc-elem":
+            _, k, e = op
+            self.so.WriteProperty("exceptionSchedule", self.special(e), arrayIndex=k + 1, direct=True)
+            desc["exceptions"] = desc["exceptions"][:k] + (e,) + desc["exceptions"][k + 1:]
+        elif kind == "weekly-set":
+            self.so.weeklySchedule = ArrayOfDaily([DailySchedule(daySchedule=mk_tvs(day)) for day in op[1]])
+            desc["weekly"] = tuple(op[1])
+        elif kind == "weekly-elem":
+            _, i, day = op
+            self.so.WriteProperty("weeklySchedule", DailySchedule(daySchedule=mk_tvs(day)), arrayIndex=i + 1, direct=True)
+            desc["weekly"] = desc["weekly"][:i] + (tuple(day),) + desc["weekly"][i + 1:]
+        elif kind == "period-set":
+            self.so.effectivePeriod = DateRange(startDate=tuple(op[1][0]), endDate=tuple(op[1][1]))
+            desc["period"] = op[1]
+        elif kind == "default-set":
+            self.so.scheduleDefault = Integer(op[1])
+            desc["default"] = op[1]
+        else:
+            raise ValueError(kind)
+        # the calendars an exception refers to must show the entries the description says
+        for e in desc["exceptions"] or ():
+            if "cal" in e and e["period"] != ("cal", self.entries_of(e["cal"])):
+                raise HarnessError("C20 part5: description and calendar %d out of step" % e["cal"])
+
+    def entries_of(self, n):
+        for e in self.desc["exceptions"] or ():
+            if e.get("cal") == n:
+                return e["period"][1]
+        return None
+
+
+P5_DATES = (datetime.date(2024, 2, 29), datetime.date(2023, 12, 31), datetime.date(2100, 2, 28))
+
+
+def p5_other_entry(d):
+    return ("date", (ANY, 12, 25, ANY)) if d.month != 12 else ("date", (ANY, 7, 4, ANY))
+
+
+def p5_bases(d):
+    """(name, description) of the configurations that are reconfigured; every one refers to at least one Calendar, which
+    either lists the date d or does not."""
+    other = p5_other_entry(d)
+    hit = ("date", dpat(d, False))
+    wk_a = tuple((((8, 0, 0, 0), 10 * (i + 1) + 1), ((17, 0, 0, 0), None)) for i in range(7))
+    wk_b = tuple((((0, 0, 0, 0), 10 * (i + 1) + 1), ((17, 0, 0, 0), 10 * (i + 1) + 2)) for i in range(7))
+    for member in (False, True):
+        ents = (other, hit) if member else (other,)
+        opp = (other,) if member else (other, hit)
+        tag = "listed" if member else "not-listed"
+        e1 = {"period": ("cal", ents), "cal": 1, "tv": (((0, 0, 0, 0), 401), ((17, 0, 0, 0), 402)), "prio": 5}
+        e1n = {"period": ("cal", ents), "cal": 1, "tv": (((0, 0, 0, 0), 401), ((17, 0, 0, 0), None)), "prio": 5}
+        e1b = {"period": ("cal", ents), "cal": 1, "tv": (((8, 0, 0, 0), 411),), "prio": 5}
+        e_date = {"period": ("date", dpat(d)), "tv": (((8, 0, 0, 0), 101), ((17, 0, 0, 0), 102)), "prio": 9}
+        e2 = {"period": ("cal", opp), "cal": 2, "tv": (((0, 0, 0, 0), 501),), "prio": 12}
+        e1s = {"period": ("cal", ents), "cal": 1, "tv": (((17, 0, 0, 0), 601),), "prio": 3}
+        yield ("weekly+calendar:" + tag, {"weekly": wk_a, "exceptions": (e1,), "default": 0, "period": WIDE})
+        yield ("calendar-only:" + tag, {"weekly": None, "exceptions": (e1b,), "default": 0, "period": WIDE})
+        yield ("weekly+dated+calendar:" + tag, {"weekly": wk_b, "exceptions": (e_date, e1n), "default": 0, "period": WIDE})
+        yield ("two-calendars:" + tag, {"weekly": wk_a, "exceptions": (e1n, e2), "default": 0, "period": WIDE})
+        yield ("two-exceptions-one-calendar:" + tag, {"weekly": wk_a, "exceptions": (e1n, e1s), "default": 0, "period": WIDE})
+
+
+def p5_changes(desc, d):
+    """(name, operations, operations that undo them) for one configuration and the date under observation."""
+    day = datetime.timedelta(days=1)
+    excs = tuple(desc["exceptions"])
+    other = p5_other_entry(d)
+    hits = (("date", dpat(d, False)), ("range", (dpat(d), dpat(d + day))), ("wnd", (ANY, ANY, d.isoweekday())))
+    cal_entries = {}
+    for e in excs:
+        if "cal" in e:
+            cal_entries[e["cal"]] = e["period"][1]
+    for n in sorted(cal_entries):
+        ents = tuple(cal_entries[n])
+        if any(ref.entry_matches(x, d) for x in ents):
+            new = tuple(x for x in ents if not ref.entry_matches(x, d))
+            for how in P5_HOWS:
+                yield ("calendar-loses-date[%s]" % how, (("cal-set", n, new, how),), (("cal-set", n, ents, how),))
+        else:
+            for i, hit in enumerate(hits):
+                for how in (P5_HOWS if i == 0 else ("write-list",)):
+                    yield ("calendar-gains-%s[%s]" % (hit[0], how), (("cal-set", n, ents + (hit,), how),), (("cal-set", n, ents, how),))
+    for k, e in enumerate(excs):
+        rest = excs[:k] + excs[k + 1:]
+        if rest or desc["weekly"] is not None:
+            yield ("exception-removed", (("exc-set", rest),), (("exc-set", excs),))
+        e2 = dict(e, tv=tuple((t, None if v is None else v + 50) for (t, v) in e["tv"]))
+        yield ("exception-values-written", (("exc-set", excs[:k] + (e2,) + excs[k + 1:]),), (("exc-set", excs),))
+        yield ("exception-element-written", (("exc-elem", k, e2),), (("exc-elem", k, e),))
+        if "cal" in e:
+            member = any(ref.entry_matches(x, d) for x in e["period"][1])
+            e3 = dict(e, cal=9, period=("cal", (other,) if member else (other, hits[0])))
+            yield ("exception-referred-to-another-calendar", (("exc-set", excs[:k] + (e3,) + excs[k + 1:]),), (("exc-set", excs),))
+    added = {"period": ("date", dpat(d)), "tv": (((0, 0, 0, 0), 901), ((17, 0, 0, 0), None)), "prio": 1}
+    yield ("exception-added", (("exc-set", excs + (added,)),), (("exc-set", excs),))
+    if len(excs) >= 2:
+        a, b = dict(excs[0], prio=excs[1]["prio"]), dict(excs[1], prio=excs[0]["prio"])
+        yield ("exception-priorities-swapped", (("exc-set", (a, b) + excs[2:]),), (("exc-set", excs),))
+    if desc["weekly"] is not None:
+        wd = d.weekday()
+        wk = tuple(desc["weekly"])
+        day2 = tuple((t, None if v is None else v + 5) for (t, v) in wk[wd]) + (((20, 0, 0, 0), 99),)
+        yield ("weekly-written", (("weekly-set", wk[:wd] + (day2,) + wk[wd + 1:]),), (("weekly-set", wk),))
+        yield ("weekly-element-written", (("weekly-elem", wd, day2),), (("weekly-elem", wd, wk[wd]),))
+    yield ("effective-period-written", (("period-set", (dpat(d - 30 * day), dpat(d - day))),), (("period-set", desc["period"]),))
+    yield ("schedule-default-written", (("default-set", 7),), (("default-set", desc["default"]),))
+
+
+def p5_prehistories(d):
+    """What the long-lived object has been asked before the change."""
+    day = datetime.timedelta(days=1)
+    a, b = (0, 0, 0, 0), (12, 0, 0, 0)
+    return [(), ((d, a),), ((d, b), (d + day, a)), ((d + day, b), (d, a)), ((d, a), (d, b)), ((d - day, b), (d, b), (d + day, b))]
+
+
+def p5_value_of(desc, d, t):
+    try:
+        return ref.present_value(desc, d, t)
+    except ref.Undecided:
+        raise HarnessError("C20 part5: enumerated configuration is undecided: %r" % (desc,))
+
+
+def p5_eval_history(desc0, d, change, prehist, clock_date):
+    """One pure-evaluation history.  Returns (number of evaluations, flips, failure or None); failure = (signature, detail)."""
+    name, ops, undo = change
+    day = datetime.timedelta(days=1)
+    vclock.reset(epoch(clock_date, (6, 0, 0, 0)))
+    st = Stage(desc0)
+    vclock.settle()                       # the interpreter's own first evaluation (of the clock's date)
+    n = 0
+    flips = False
+    for (dd, t) in prehist:
+        lab, bad = judge_eval(st.desc, dd, t, st.so)
+        n += 1
+        if bad is not None:
+            return n, flips, (bad[0], dict(bad[1], phase="before-any-change", date=str(dd), time=t, schedule=dict(st.desc)))
+    for phase, todo in (("after-change", ops), ("after-undoing-it", undo)):
+        prev = dict(st.desc)
+        try:
+            for op in todo:
+                st.apply(op)
+        except HarnessError:
+            raise
+        except Exception as err:
+            # the write itself raised (the interpreter re-evaluates inside a monitored write)
+            return n, flips, ("history:eval:%s:%s:write-raises:%s" % (phase, name, type(err).__name__),
+                              {"error": "%s: %s" % (type(err).__name__, err), "phase": phase, "change": name, "operations": todo,
+                               "clock_date": str(clock_date), "schedule": prev})
+        vclock.settle()
+        for dd in (d, d + day, d):
+            for t in INSTANTS:
+                before, now = p5_value_of(prev, dd, t), p5_value_of(st.desc, dd, t)
+                if before != now:
+                    flips = True
+                lab, bad = judge_eval(st.desc, dd, t, st.so)
+                n += 1
+                if bad is None:
+                    continue
+                sig, detail = bad
+                fresh = Stage(st.desc)
+                flab, fbad = judge_eval(st.desc, dd, t, fresh.so)
+                if fbad is None:
+                    got = detail.get("got", "?")
+                    if before != now and before[0] and got == before[1]:
+                        what = "value-of-previous-configuration"
+                    else:
+                        what = lab if lab in ("value-differs", "next-late", "next-not-later", "raises") else "differs"
+                    sig = "history:eval:%s:%s:%s" % (phase, name, what)
+                    detail = dict(detail, fresh_object="agrees with the reference (%s)" % flab, judged_alone=bad[0])
+                detail = dict(detail, phase=phase, change=name, operations=todo, date=str(dd), time=t, asked_before=[(str(x), y) for x, y in prehist],
+                              clock_date=str(clock_date), schedule=dict(st.desc), previous_configuration_value=before, reference=now)
+                return n, flips, (sig, detail)
+    return n, flips, None
+
+
+def p5_eval_cases():
+    for d in P5_DATES:
+        for (bname, desc) in p5_bases(d):
+            for ci, change in enumerate(p5_changes(desc, d)):
+                for hi, pre in enumerate(p5_prehistories(d)):
+                    for cd in (0, 1):
+                        yield ("e", (d.year, d.month, d.day), bname, ci, hi, cd)
+
+
+P5_CHANGE_TIMES = ((7, 0, 0, 0), (9, 0, 1, 0), (17, 30, 0, 0), (23, 59, 30, 0))
+P5_UNDO_AT = (12, 0, 30, 0)
+
+
+def p5_timer_cases():
+    for d in P5_DATES[:2]:
+        for (bname, desc) in p5_bases(d):
+            for ci, change in enumerate(p5_changes(desc, d)):
+                for ti in range(len(P5_CHANGE_TIMES)):
+                    yield ("t", (d.year, d.month, d.day), bname, ci, ti, 0)
+
+
+def p5_lookup(case):
+    mode, dl, bname, ci, x, y = case
+    d = datetime.date(*dl)
+    desc = dict(b for b in p5_bases(d))[bname]
+    change = list(p5_changes(desc, d))[ci]
+    return mode, d, desc, change, x, y
+
+
+def p5_timer_history(desc0, d, change, t_c):
+    """One timer-driven history: the object runs on its own timer from the day before d, is reconfigured on d at t_c and
+    back on d+1 at 12:00:30, and runs to the end of d+2.  Returns (observations, verdict, swallowed, notes)."""
+    name, ops, undo = change
+    day = datetime.timedelta(days=1)
+    day0 = d - day
+    vclock.reset(epoch(day0, (0, 0, 0, 0)))
+    st = Stage(desc0)
+    so = st.so
+    events = [(epoch(d, t_c) + 0.0, 1, "change", ops), (epoch(d + day, P5_UNDO_AT), 1, "undo", undo)]
+    for i in range(4):
+        for t in INSTANTS[:-1] + ((23, 59, 59, 0),):
+            events.append((epoch(day0 + i * day, t), 0, "probe", None))
+    events.sort(key=lambda e: (e[0], e[1]))
+    obs, notes = [], []
+    first_bad = None
+    livelock = None
+    not_before = None                    # after a write the interpreter is not told about: its next wake-up
+    write_error = None
+    last_change = "start"
+    prev = None
+    try:
+        vclock.settle()
+        for (x, _, kind, todo) in events:
+            vclock.run_until(x, max_steps=MAX_TIMER_STEPS)
+            if kind != "probe":
+                prev = dict(st.desc)
+                last_change = "after-change" if kind == "change" else "after-undoing-it"
+                try:
+                    for op in todo:
+                        st.apply(op)
+                except HarnessError:
+                    raise
+                except Exception as err:
+                    write_error = "%s: %s" % (type(err).__name__, err)
+                    break
+                vclock.settle()
+                if all(op[0] in P5_NOTIFIED for op in todo):
+                    not_before = None
+                else:
+                    not_before = so._task.taskTime if so._task.isScheduled else float("inf")
+            stamp = datetime.datetime(1970, 1, 1) + datetime.timedelta(seconds=int(x))
+            dd, t = stamp.date(), (stamp.hour, stamp.minute, stamp.second, int(round((x % 1) * 100)))
+            pv = so.presentValue
+            pv = None if isinstance(pv, Null) else getattr(pv, "value", pv)
+            armed = bool(so._task.isScheduled)
+            act, want = p5_value_of(st.desc, dd, t)
+            judged = act and (not_before is None or x >= not_before)
+            obs.append((str(dd), t, pv, armed, act, want, judged))
+            if act and not judged:
+                notes.append("write-not-monitored:before-next-wake-up:%s" % ("already-current" if pv == want else "previous-value-shown"))
+            if judged and pv != want and first_bad is None:
+                old = p5_value_of(prev, dd, t) if prev is not None else (False, None)
+                first_bad = {"at": (str(dd), t), "present_value": pv, "expected": want, "armed": armed, "phase": last_change,
+                             "what": "not-armed" if not armed else
+                                     "present-value-of-previous-configuration" if (old[0] and old[1] == pv) else "present-value-wrong",
+                             "interpreter_told": not_before is None}
+    except vclock.Livelock as err:
+        livelock = str(err)
+    swallowed = sorted(set(m for (_, m) in vclock.swallowed))
+    sw = "no-exception"
+    if swallowed:
+        sw = swallowed[0].replace("an error has occurred: ", "").replace(" ", "-")[:60]
+    end_d = day0 + 4 * day
+    armed_end = bool(so._task.isScheduled)
+    when_end = so._task.taskTime if armed_end else None
+    verdict = None
+    if livelock is not None:
+        verdict = ("history:timer:%s:%s:livelock:%s" % (last_change, name, sw), {"livelock": livelock})
+    elif first_bad is not None:
+        verdict = ("history:timer:%s:%s:%s:%s" % (first_bad["phase"], name, first_bad["what"], sw), first_bad)
+    elif write_error is not None:
+        verdict = ("history:timer:%s:%s:write-raises:%s" % (last_change, name, write_error.split(":")[0]), {"error": write_error})
+    elif not armed_end:
+        verdict = ("history:timer:%s:%s:interpreter-not-armed-at-end:%s" % (last_change, name, sw), {"armed": False})
+    else:
+        last = (end_d - day, (23, 59, 59, 0))
+        nxt = ref.first_change(st.desc, last, horizon_days=3)
+        if nxt is not None and when_end > epoch(nxt[0], nxt[1]) + 1e-6:
+            verdict = ("history:timer:%s:%s:armed-later-than-next-change:%s" % (last_change, name, sw),
+                       {"armed_for": when_end, "next_change": (str(nxt[0]), nxt[1])})
+    if verdict is not None:
+        verdict[1].update({"swallowed": swallowed, "armed_at_end": armed_end, "change": name, "operations": ops,
+                           "changed_at": (str(d), t_c), "undone_at": (str(d + day), P5_UNDO_AT), "schedule_at_end": dict(st.desc)})
+    return obs, verdict, swallowed, notes
+
+
+def p5_shard(item, deadline):
+    acc = Acc()
+    for n, case in enumerate(item):
+        if time.time() > deadline:
+            acc.cap("part5: deadline")
+            break
+        mode, d, desc, change, x, y = p5_lookup(case)
+        day = datetime.timedelta(days=1)
+        if mode == "e":
+            pre = p5_prehistories(d)[x]
+            cd = d if y == 0 else d + day
+            k, flips, bad = p5_eval_history(desc, d, change, pre, cd)
+            if n == 0:
+                k2, flips2, bad2 = p5_eval_history(desc, d, change, pre, cd)
+                if (k2, flips2, bad2 is None) != (k, flips, bad is None):
+                    raise HarnessError("C20 part5: the same history ran twice with different results")
+            acc.case(("p5e",) + tuple(case))
+            acc.evaluations += k
+            acc.add_info("part5 pure-evaluation histories", 1)
+            acc.add_info("part5 evaluations judged", k)
+            acc.outcome("p5:eval:%s:%s:%s" % (change[0].split("[")[0], "prescribed-value-changes" if flips else "prescribed-value-unchanged",
+                                              "ok" if bad is None else "differs"))
+            if bad is not None:
+                acc.fail(bad[0], bad[1], {"part": 5, "case": list(case)})
+            elif n == 0:
+                acc.sample({"part": 5, "mode": "pure evaluation", "date": str(d), "schedule": desc, "change": change[0], "operations": change[1],
+                            "asked_before": [(str(a), b) for a, b in pre], "clock_date": str(cd), "evaluations": k})
+        else:
+            t_c = P5_CHANGE_TIMES[x]
+            obs, verdict, swallowed, notes = p5_timer_history(desc, d, change, t_c)
+            if n == 0:
+                obs2, verdict2, _, _ = p5_timer_history(desc, d, change, t_c)
+                if obs2 != obs or (verdict is None) != (verdict2 is None):
+                    raise HarnessError("C20 part5: the same timer-driven history ran twice with different observations")
+            acc.case(("p5t",) + tuple(case))
+            acc.traces += 1
+            acc.transitions += len(obs)
+            acc.add_info("part5 timer-driven histories", 1)
+            acc.add_info("part5 probes", len(obs))
+            acc.add_info("part5 probes compared", sum(1 for o in obs if o[6]))
+            for m in swallowed:
+                acc.swallowed[m] += 1
+            for m in notes:
+                acc.add_info("part5 " + m, 1)
+            for m in set(notes):
+                acc.outcome("p5:timer:" + m)
+            acc.outcome("p5:timer:%s:%s" % (change[0].split("[")[0], "ok" if verdict is None else verdict[0].split(":")[4]))
+            if verdict is not None:
+                acc.fail(verdict[0], dict(verdict[1], schedule=desc), {"part": 5, "case": list(case)})
+    return acc
+
+
 # ----------------------------------------------------------------------------- entry points
 
 def _dl(dates):
@@ -1382,6 +1822,13 @@ def run(tier, seed, deadline):
     acc.info["part4 wall_s"] = round(time.time() - t4, 1)
     if (os.environ.get("TZ"), time.tzname, time.localtime(0).tm_gmtoff) != zone_found:
         raise HarnessError("C20: the time zone of the process was not restored after part 4")
+
+    # ---- part 5: histories (evaluate, reconfigure, evaluate again), pure and timer-driven; same in both tiers
+    t5 = time.time()
+    cases = list(p5_eval_cases()) + list(p5_timer_cases())
+    run_shards(p5_shard, chunks(cases, 64), t_start + 0.50 * span, into=acc)
+    acc.info["part5 histories"] = len(cases)
+    acc.info["part5 wall_s"] = round(time.time() - t5, 1)
 
     # ---- part 1
     t1 = time.time()
@@ -1460,4 +1907,14 @@ def replay(case):
             k = k[0] if k else 0
             lines = ["%.2f local %s %s pv=%r armed=%r active=%r expected=%r" % o for o in obs[max(0, k - 6):k + 6]]
         return verdict is None, "zone=%s\nverdict=%r\nswallowed=%r\n%s" % (case["tz"], verdict, swallowed, "\n".join(lines[:14]))
+    if part == 5:
+        mode, d, desc, change, x, y = p5_lookup(tuple(case["case"][:1]) + (tuple(case["case"][1]),) + tuple(case["case"][2:]))
+        if mode == "e":
+            pre = p5_prehistories(d)[x]
+            k, flips, bad = p5_eval_history(desc, d, change, pre, d if y == 0 else d + datetime.timedelta(days=1))
+            return bad is None, "date=%s change=%s operations=%r asked before=%r\nschedule=%r\n%r" % (d, change[0], change[1], pre, desc, bad)
+        obs, verdict, swallowed, notes = p5_timer_history(desc, d, change, P5_CHANGE_TIMES[x])
+        lines = ["%s %s pv=%r armed=%r active=%r expected=%r judged=%r" % o for o in obs if o[0] >= str(d)][:24]
+        return verdict is None, "change=%s at %s %r operations=%r\nschedule=%r\nverdict=%r\n%s" % (
+            change[0], d, P5_CHANGE_TIMES[x], change[1], desc, verdict, "\n".join(lines))
     return False, "unknown part"
